@@ -182,7 +182,7 @@ fn typed_sources() -> Vec<&'static str> {
         "f(1)", "min(1, 2)", "str::from(1)", "1 / 0", "a; b", "1,", ";", "9223372036854775807 + 1", "1 == 1.0", "2 ^ 2", "typeof(())",
         "len(\"abc\")", "n = 1; n", "x = (1, 2); x", "b = true; b &&= false; b", "/* c */ 1", "1 // c", "&", "a b c", "nope()", "1 = 2",
         // boundary literals, alone (a shortcut for plain literals must agree with the tokenizer)
-        "9223372036854775807", "-9223372036854775807", "9223372036854775808", "-9223372036854775808", " -9223372036854775808 ",
+        "42", "0x10", "9223372036854775807", "-9223372036854775807", "9223372036854775808", "-9223372036854775808", " -9223372036854775808 ",
         "0x7fffffffffffffff", "0x8000000000000000", "-0", "007", "+7", "0x1F", "1e3", "-1e3", ".5", "5.", "inf", "-inf", "nan", "true", " true ",
         "1_000", "١٢٣", "0b1",
         // assignment targets that are not bare identifiers (unclaimed for the tree shape, but all
@@ -211,6 +211,10 @@ pub fn run(rep: &Report) {
     ctx.vars.insert("a".into(), RV::Int(4));
     ctx.vars.insert("b".into(), RV::Bool(true));
     ctx.funcs.insert("f".into(), refmodel::interp::UF::Tag(1));
+    // variables *named* like literals (possible through the API) must not capture the literals
+    for (i, n) in ["42", "true", "inf", "0x10", "1e3", "-0", "007", ".5"].iter().enumerate() {
+        ctx.vars.insert(n.to_string(), RV::Int(900 + i as i64));
+    }
     common::enumerate(rep, "fixed", fixed.len() as u64, 1, &|i, l| {
         let p = Program { family: "fixed", src: fixed[i as usize].to_string(), ast: None, ctx: ctx.clone() };
         l.sample(6, || json!(p.src.clone()));
